@@ -29,7 +29,7 @@ RULE = ("scenario = one conversation (initialize + 1..5 list/call/read/get/ping/
         "several classes, 0..3 notifications before each response, string and integer ids) run over every carrier able to express it, with "
         "per-carrier nuisance (latency, chunking); non-trivial = at least two carriers ran and the conversation has a notification, an error "
         "reply, an integer id or non-ASCII payload")
-PROBES = ["http_sse_untyped_events_after_keepalive", "through_mcpclient", "slow_notification_transit_on_http", "over_100_notifications_in_session", "sse_event_before_202", "notifications_before_response", "error_reply", "int_id", "non_ascii_payload", "four_carriers", "nested_nulls"]
+PROBES = ["server_greets_at_connection_time", "greeting_in_same_chunk_as_endpoint", "http_session_assigned_with_initialize_result", "http_sse_untyped_events_after_keepalive", "through_mcpclient", "slow_notification_transit_on_http", "over_100_notifications_in_session", "sse_event_before_202", "notifications_before_response", "error_reply", "int_id", "non_ascii_payload", "four_carriers", "nested_nulls"]
 TIERS = {"quick": {"runs": 3000, "wall": 45.0}, "thorough": {"runs": 80000, "wall": 560.0}}
 ASSUMPTIONS = ["fault-free by construction: only latency and chunking vary between carriers",
                "JSON-body HTTP runs only conversations without interleaved notifications (a single JSON object cannot express them)",
@@ -52,13 +52,24 @@ def generate(rng: random.Random, tier: str) -> dict:
             e["id"] = rng.choice([f"raw-{k}", k + 10, f"{k + 10}", -k - 1, 2 ** 53 + k])
         ex.append(e)
     api = rng.choice(["helpers", "helpers", "mcpclient"])
+    greeting = None
+    if api == "helpers" and rng.random() < 0.15:
+        # the server says something the moment the connection is up (only carriers with a server-to-client channel at that time can express it)
+        greeting = {"n": rng.choice([1, 1, 2, 5]), "same_chunk": rng.random() < 0.7}
     return {"v": 1, "uuid_seed": rng.getrandbits(40), "exchanges": ex, "init": True if api == "mcpclient" else rng.random() < 0.8, "client_api": api,
+            "greeting": greeting,
             "nuisance": {"lat": rng.choice([0, 1, 20]), "chunk": rng.choice([None, 1, 5, 64]), "sse_chunk": rng.choice([None, 3, 16]),
                          "sse_post_lat": rng.choice([1, 1, 30, 200]), "sse_event_first": rng.random() < 0.4,
-                         "notif_transit": rng.choice([0, 0, 40, 300]), "sse_style": rng.choice([None, None, "untyped"])}}
+                         "notif_transit": rng.choice([0, 0, 40, 300]), "sse_style": rng.choice([None, None, "untyped"]),
+                         # a session-keeping Streamable HTTP server: id assigned with the InitializeResult only / repeated on every reply / no sessions
+                         "http_session": rng.choice([None, "init_only", "init_only", "every"])}}
 
 
 def simplify(scn):
+    if scn.get("greeting"):
+        c = copy.deepcopy(scn); c["greeting"] = None; yield c
+    if scn["nuisance"].get("http_session"):
+        c = copy.deepcopy(scn); c["nuisance"]["http_session"] = None; yield c
     if scn.get("client_api") == "mcpclient":
         c = copy.deepcopy(scn); c["client_api"] = "helpers"; yield c
     if scn["init"] and scn.get("client_api") != "mcpclient":
@@ -108,6 +119,11 @@ def _notifs(e, k):
 
 
 INIT_RESULT = {"protocolVersion": "2025-06-18", "capabilities": {"tools": {"listChanged": True}}, "serverInfo": {"name": "sim-ü", "version": "1"}}
+
+
+def _greeting(scn):
+    g = scn.get("greeting")
+    return [{"jsonrpc": "2.0", "method": "notifications/message", "params": {"level": "info", "data": f"hello-{j}"}} for j in range(g["n"])] if g else []
 
 
 def _server_messages(scn, posted):
@@ -285,6 +301,8 @@ def _run_stdio(scn):
                 await _converse_mcp(sim, scn, StdioTransport(StdioParameters(command="sim-child", args=[])), st)
             else:
                 async with stdio.stdio_client(StdioParameters(command="sim-child", args=[])) as (r, w):
+                    if scn.get("greeting"):
+                        factory.children[0].write_stdout([b"".join(json.dumps(m).encode() + b"\n" for m in _greeting(scn))])
                     await _converse(sim, scn, r, w, st)
     return main, st
 
@@ -304,11 +322,28 @@ def _run_http(scn, sse_bodies: bool):
     n = scn["nuisance"]
 
     async def main(sim):
+        sess = {"assigned": False}
+        mode = n.get("http_session") if scn["init"] else None
+
         def server(rec):
             posted = json.loads(rec["body"]) if rec["body"] else None
+            hdr = {}
+            if mode:
+                is_init = isinstance(posted, dict) and posted.get("method") == "initialize"
+                if sess["assigned"] and not is_init and rec["headers"].get("mcp-session-id") != "sess-1":
+                    sim.rec("server", "400-missing-session", None)
+                    err = {"jsonrpc": "2.0", "id": posted.get("id") if isinstance(posted, dict) else None,
+                           "error": {"code": -32000, "message": "Bad Request: Mcp-Session-Id header is required"}}
+                    return {"latency": ticks(n["lat"]), "status": 400, "headers": {"content-type": "application/json"}, "chunks": [(0, json.dumps(err).encode())]}
+                if is_init:
+                    sess["assigned"] = True
+                    hdr = {"mcp-session-id": "sess-1"}
+                    sim.probe("http_session_assigned_with_initialize_result")
+                elif mode == "every":
+                    hdr = {"mcp-session-id": "sess-1"}
             msgs = _server_messages(scn, posted)
             if not msgs:
-                return {"latency": ticks(n["lat"]), "status": 202, "chunks": [(0, b"")]}
+                return {"latency": ticks(n["lat"]), "status": 202, "headers": dict(hdr), "chunks": [(0, b"")]}
             if sse_bodies:
                 raw = _sse_body(msgs, n.get("sse_style"))
                 ct = "text/event-stream"
@@ -319,7 +354,7 @@ def _run_http(scn, sse_bodies: bool):
             chunks = [(0, raw[i:i + ch]) for i in range(0, len(raw), ch)][:300] if ch else [(0, raw)]
             if ch and len(raw) > ch * 300:
                 chunks.append((0, raw[ch * 300:]))
-            return {"latency": ticks(n["lat"]), "status": 200, "headers": {"content-type": ct}, "chunks": chunks}
+            return {"latency": ticks(n["lat"]), "status": 200, "headers": dict(hdr, **{"content-type": ct}), "chunks": chunks}
 
         transport = SimHTTPTransport(sim, server)
         if n.get("notif_transit"):
@@ -358,7 +393,17 @@ def _run_sse(scn):
 
         def on_stream(stream, rec):
             box["stream"] = stream
-            stream.push(b"event: endpoint\ndata: /messages/?session_id=s1\n\n")
+            ann = b"event: endpoint\ndata: /messages/?session_id=s1\n\n"
+            if scn.get("greeting"):
+                greet = _sse_body(_greeting(scn))
+                if scn["greeting"]["same_chunk"]:
+                    stream.push(ann + greet)
+                    sim.probe("greeting_in_same_chunk_as_endpoint")
+                else:
+                    stream.push(ann)
+                    stream.push(greet)
+            else:
+                stream.push(ann)
             sim.at(sim.now() + 4.0, keepalive, tie=2)
 
         def server(rec):
@@ -398,6 +443,8 @@ def execute(scn: dict) -> dict:
     carriers = [("stdio", lambda s: _run_stdio(s)), ("http-sse", lambda s: _run_http(s, True)), ("sse", lambda s: _run_sse(s))]
     if not has_notifs:
         carriers.insert(1, ("http-json", lambda s: _run_http(s, False)))
+    if scn.get("greeting"):
+        carriers = [c for c in carriers if c[0] in ("stdio", "sse")]
     results = {}
     digests, isigs = [], []
     out = {"violations": [], "digest": "", "isig": "", "faults": {}, "probes": {}, "vtime": 0.0, "steps": 0, "harness": [],
@@ -415,6 +462,10 @@ def execute(scn: dict) -> dict:
         if info.deadlock or info.limit or info.exc is not None:
             out["harness"].append(f"{name}: run did not complete: deadlock={info.deadlock} limit={info.limit} exc={info.exc!r}")
             continue
+        for pk, pv in info.sim.probes.items():
+            out["probes"][pk] = out["probes"].get(pk, 0) + pv
+        for fk, fv in info.sim.faults.items():
+            out["faults"][fk] = out["faults"].get(fk, 0) + fv
         digests.append(info.sim.digest())
         isigs.append(info.sim.isig())
         results[name] = {"transcript": _transcript(st), "outcomes": st["outcomes"]}
@@ -429,7 +480,9 @@ def execute(scn: dict) -> dict:
         out["probes"][k] = out["probes"].get(k, 0) + 1
 
     # expected from the conversation itself
-    exp_t = []
+    exp_t = [("notification", "NoneType", None, g["method"], g["params"]) for g in _greeting(scn)]
+    if scn.get("greeting"):
+        probe("server_greets_at_connection_time")
     if scn["init"]:
         exp_t.append(("result", "str", None, None, INIT_RESULT))
     for k, e in enumerate(scn["exchanges"]):
